@@ -11,6 +11,7 @@ import (
 	"hop.computer/hop/certs"
 	"hop.computer/hop/keys"
 	"hop.computer/hop/pkg/thunks"
+	"hop.computer/hop/portforwarding"
 )
 
 // Target server: a hop server that a delegate hop client
@@ -99,4 +100,20 @@ func (sess *hopSession) checkCmd(cmd string, shell bool) (sessID, error) {
 		}
 	}
 	return 0, fmt.Errorf("no auth grant for cmd: %s", cmd)
+}
+
+// checkPF consumes an effective, unused port-forwarding grant for the
+// requested direction (portforwarding.PfLocal or PfRemote).
+func (sess *hopSession) checkPF(fwdType int) error {
+	want := authgrants.LocalPF
+	if fwdType == portforwarding.PfRemote {
+		want = authgrants.RemotePF
+	}
+	for i, ag := range sess.authorizedActions {
+		if now := thunks.TimeNow(); !now.Before(ag.StartTime) && now.Before(ag.ExpTime) && ag.GrantType == want {
+			sess.authorizedActions = slices.Delete(sess.authorizedActions, i, i+1)
+			return nil
+		}
+	}
+	return fmt.Errorf("no auth grant for port forwarding")
 }
